@@ -9,102 +9,9 @@
 #include <sstream>
 #include "hx_common.h"
 #include "libcellml/module/libcellml"
-using namespace libcellml;
+#include "hx_dump.h"
 namespace libcellml { std::string escapeAttributeValue(const std::string &value); }
 
-static std::string q(const std::string &s) { return hx::H(s); }
-static std::string num(double d) { char b[64]; snprintf(b, sizeof b, "%.17g", d); return b; }
-static std::string ws(const std::string &s)
-{
-    // insignificant whitespace of MathML / test / reset values: drop blanks between tags and at the ends
-    std::string r = std::regex_replace(s, std::regex(">\\s+<"), "><");
-    r = std::regex_replace(r, std::regex("^\\s+|\\s+$"), "");
-    return r;
-}
-static std::string imp(const ImportedEntityPtr &e)
-{
-    if (!e->isImport()) return "-";
-    return "(imp " + q(e->importSource()->url()) + " " + q(e->importReference()) + " " + q(e->importSource()->id()) + ")";
-}
-static std::string path(const ComponentPtr &c)
-{
-    std::string p = c->name();
-    auto par = c->parent();
-    while (par != nullptr) {
-        auto pc = std::dynamic_pointer_cast<Component>(par);
-        if (pc == nullptr) break;
-        p = pc->name() + "/" + p;
-        par = pc->parent();
-    }
-    return p;
-}
-static void dumpComponent(const ComponentPtr &c, std::vector<std::string> &out, std::set<std::string> &eq, const std::string &indent)
-{
-    std::string line = indent + "(component " + q(c->name()) + " id " + q(c->id()) + " encid " + q(c->encapsulationId()) + " " + imp(c) + " math " + q(ws(c->math()));
-    std::vector<std::string> vs;
-    for (size_t i = 0; i < c->variableCount(); ++i) {
-        auto v = c->variable(i);
-        vs.push_back("(var " + q(v->name()) + " " + q(v->units() ? v->units()->name() : std::string("<null>")) + " " + q(v->initialValue()) + " " + q(v->interfaceType()) + " " + q(v->id()) + ")");
-        for (size_t k = 0; k < v->equivalentVariableCount(); ++k) {
-            auto w = v->equivalentVariable(k);
-            auto wc = std::dynamic_pointer_cast<Component>(w->parent());
-            std::string a = path(c) + ":" + v->name(), b = (wc ? path(wc) : std::string("<orphan>")) + ":" + w->name();
-            std::string e = (a < b ? a + " ~ " + b : b + " ~ " + a) + " map " + q(Variable::equivalenceMappingId(v, w)) + " con " + q(Variable::equivalenceConnectionId(v, w));
-            eq.insert(e);
-        }
-    }
-    std::sort(vs.begin(), vs.end());
-    for (auto &x : vs) line += " " + x;
-    std::vector<std::string> rs;
-    for (size_t i = 0; i < c->resetCount(); ++i) {
-        auto r = c->reset(i);
-        rs.push_back("(reset " + q(r->variable() ? r->variable()->name() : "<null>") + " " + q(r->testVariable() ? r->testVariable()->name() : "<null>") + " "
-                     + (r->isOrderSet() ? std::to_string(r->order()) : std::string("unset")) + " " + q(r->id()) + " tv " + q(ws(r->testValue())) + " " + q(r->testValueId())
-                     + " rv " + q(ws(r->resetValue())) + " " + q(r->resetValueId()) + ")");
-    }
-    std::sort(rs.begin(), rs.end());
-    for (auto &x : rs) line += " " + x;
-    out.push_back(line + ")");
-    std::vector<std::pair<std::string, ComponentPtr>> kids;
-    for (size_t i = 0; i < c->componentCount(); ++i) kids.push_back({c->component(i)->name(), c->component(i)});
-    std::stable_sort(kids.begin(), kids.end(), [](auto &a, auto &b) { return a.first < b.first; });
-    for (auto &k : kids) dumpComponent(k.second, out, eq, indent + "  ");
-}
-static std::string dump(const ModelPtr &m)
-{
-    if (m == nullptr) return "<null model>\n";
-    std::string r = "(model " + q(m->name()) + " id " + q(m->id()) + " encid " + q(m->encapsulationId()) + ")\n";
-    std::vector<std::string> us;
-    for (size_t i = 0; i < m->unitsCount(); ++i) {
-        auto u = m->units(i);
-        std::string l = "(units " + q(u->name()) + " id " + q(u->id()) + " " + imp(u);
-        std::vector<std::string> ch;
-        for (size_t k = 0; k < u->unitCount(); ++k) {
-            std::string ref, pre, id; double ex, mu;
-            u->unitAttributes(k, ref, pre, ex, mu, id);
-            ch.push_back("(unit " + q(ref) + " " + q(pre) + " " + num(ex) + " " + num(mu) + " " + q(id) + ")");
-        }
-        std::sort(ch.begin(), ch.end());
-        for (auto &x : ch) l += " " + x;
-        us.push_back(l + ")");
-    }
-    std::sort(us.begin(), us.end());
-    for (auto &x : us) r += x + "\n";
-    std::vector<std::string> cs; std::set<std::string> eq;
-    std::vector<std::pair<std::string, ComponentPtr>> kids;
-    for (size_t i = 0; i < m->componentCount(); ++i) kids.push_back({m->component(i)->name(), m->component(i)});
-    std::stable_sort(kids.begin(), kids.end(), [](auto &a, auto &b) { return a.first < b.first; });
-    for (auto &k : kids) dumpComponent(k.second, cs, eq, "");
-    for (auto &x : cs) r += x + "\n";
-    for (auto &x : eq) r += "(equiv " + x + ")\n";
-    return r;
-}
-static std::string issues(const LoggerPtr &l)
-{
-    std::string r;
-    for (size_t i = 0; i < l->issueCount(); ++i) r += std::to_string(int(l->issue(i)->level())) + " R" + std::to_string(int(l->issue(i)->referenceRule())) + " " + l->issue(i)->description() + "\n";
-    return r;
-}
 int main(int argc, char **argv)
 {
     if (argc < 2) return 2;
